@@ -37,7 +37,8 @@ add("C02", "Hypothesis-generated parameters/abscissae vs independent 40-digit mp
     "formula to a stated round-off bound, equals the baseline bit-exactly off contact, the sphere series stays within "
     "1e-4 of max force of the exact Sneddon solution for depths up to R, and each docstring states the constants "
     "the code uses; at the inclusive bound alpha = 90 of the cone (singular formula) only finiteness and the baseline "
-    "off contact are checked. 16 000 cases quick, 8e5 thorough.",
+    "off contact are checked; a further block passes single-precision (float32) indentation arrays (contact point 0) "
+    "and bounds the deviation from the same reference by float32 round-off. 16 000 + 4 000 cases quick, 8e5 + 2e5 thorough.",
     "Trusts mpmath and the reference formulas in vlib/refmodels.py (written from the papers, Bilodeau constant 0.8887); "
     "sampling cannot prove absence of a deviation in an unexplored corner of the box.")
 
@@ -86,7 +87,8 @@ add("C01", "ground-truth oracle on Hypothesis-generated synthetic curves (indepe
     "linear/jittered/dithered (non-monotonic)/quadratic sampling, coarse 5-14 point segments, both segments, weighting 0..5e-6, leastsq and nelder, noise 0..3e-2: success "
     "is reported, contact point / baseline / modulus are recovered to optimizer precision (1e-7 leastsq, 2e-3 nelder, "
     "of the natural scales) and the fit column coincides with the clean data; with noise the errors stay below "
-    "C sigma / sqrt(n) with calibrated C. 3 200 cases quick, 200 000 thorough.",
+    "C sigma / sqrt(n) with calibrated C; one third of the fits enter through IndentationFitter(idnt, **keywords) "
+    "on a curve that may carry a prior fit, the rest through Indentation.fit_model. 3 200 cases quick, 200 000 thorough.",
     "Tolerances and the basin are calibrated constants stated in the evidence; one known finding (F20: Nelder-Mead "
     "initial simplex vs. contact-point scale) is excluded by signature and reported as KNOWN-FINDING.")
 
